@@ -108,6 +108,36 @@ def run(tier, seed):
                       ("transcription.precision_recall_f1_overlap", lambda st: tr.precision_recall_f1_overlap(dri, dp, dei, dp, onset_tolerance=tol, strict=st)[:3]),
                       ("transcription.precision_recall_f1_overlap", lambda st: tr.precision_recall_f1_overlap(dri, dp, dei, dp, onset_tolerance=1.0, strict=st)[:3])):
             log.add("mono", nm, call(f, True), call(f, False), dict(dmeta, param="strict", t1=True, t2=False))
+        # velocity tolerance placed EXACTLY on a note's rescaled velocity error (found through the public API by bisection
+        # over the floats): strict=False must still not score below strict=True there
+        if len(nri) and len(nei):
+            def vcount(t, st):
+                try:
+                    return len(tv.match_notes(nri, nrp, nrv, nei, nep, nev, velocity_tolerance=t, strict=st, onset_tolerance=2 / 16.0,
+                                              offset_ratio=None))
+                except Exception:  # noqa
+                    return -1
+            lo, hi = 0.0, 2.0
+            # only where strictness does not change the underlying note matching (otherwise the velocity regression differs
+            # and nothing is claimed - see assumptions)
+            same_inner = (tr.match_notes(nri, nrp, nei, nep, onset_tolerance=2 / 16.0, offset_ratio=None, strict=True) ==
+                          tr.match_notes(nri, nrp, nei, nep, onset_tolerance=2 / 16.0, offset_ratio=None, strict=False))
+            if same_inner and 0 <= vcount(lo, False) < vcount(hi, False):
+                c0 = vcount(lo, False)
+                for _ in range(80):
+                    mid = 0.5 * (lo + hi)
+                    if mid <= lo or mid >= hi:
+                        break
+                    if vcount(mid, False) > c0:
+                        hi = mid
+                    else:
+                        lo = mid
+                for tie in (lo, hi):
+                    f = lambda st: tv.precision_recall_f1_overlap(nri, nrp, nrv, nei, nep, nev, velocity_tolerance=tie, strict=st,  # noqa
+                                                                    onset_tolerance=2 / 16.0, offset_ratio=None)[:3]
+                    log.add("mono", "transcription_velocity.precision_recall_f1_overlap", call(f, True), call(f, False),
+                            {"param": "strict", "t1": True, "t2": False, "velocity_tolerance": tie, "what": "tolerance on a velocity error",
+                             "ref": nri.tolist(), "est": nei.tolist(), "ref_velocities": nrv.tolist(), "est_velocities": nev.tolist()})
         # nested criteria on one input
         if len(nri) and len(nei):
             ev_ = call(tr.evaluate, nri, nrp, nei, nep)
